@@ -44,6 +44,11 @@ ParseCases ==
 \* caller deadlines: mantissa x 10^exp microseconds, and "none"
 PropCases ==
   [fam : {"prop"}, mant : {1, 5, 9, 10, 15, 99, 999}, exp : 2..13, kind : {"unary", "stream"}]
+  \* around and beyond 10^8 ms -- where the millisecond count no longer fits
+  \* the 8 digits of the wire format -- with a fraction of a second
+  \* (mantissa in ms: 27.7 h, 28 h, 7 d, 23 d)
+  \cup [fam : {"prop"}, mant : {99999999, 100000001, 100000499, 100800499, 604800250, 2000000001}, exp : {3},
+        kind : {"unary", "stream"}]
   \cup [fam : {"prop"}, mant : {0}, exp : {0}, kind : {"unary", "stream"}]    \* no deadline
 
 Cases == ParseCases \cup PropCases
